@@ -97,6 +97,7 @@ type c03Universe struct {
 	quotas     []c03QuotaDef
 	pods       []c03PodDef
 	syncLeaves []int
+	flipLend   []int // quotas whose allow-lent-resource label the alphabet toggles: a meta change without a parent change, i.e. a reset of the whole quota tree
 	node1      c03Vec
 	node2      c03Vec
 }
@@ -208,6 +209,28 @@ var c03Hetero = &c03Universe{
 	node2:      c03V(4, 4),
 }
 
+// c03Reset: two flat quotas; the alphabet additionally toggles the allow-lent-resource label of either of them, which
+// makes the manager rebuild the whole quota tree (new runtime calculators, every quota's derived amounts cleared and
+// replayed). Whatever a quota remembered from before the rebuild (e.g. the calculator version it was last refreshed at)
+// must not make it skip its next refresh: its limit would stay the emptied one (seed C03-5).
+var c03Reset = &c03Universe{
+	name: "reset",
+	desc: "root->{c03-a, c03-b}, allow-lent-resource of both toggled by the alphabet (quota tree reset)",
+	quotas: []c03QuotaDef{
+		{name: "c03-a", parent: -1, lend: true, maxLevels: []c03Vec{c03V(4, 4), c03V(6, 6)}, maxStart: 0, minLevels: []c03Vec{c03V(1, 1)}},
+		{name: "c03-b", parent: -1, lend: true, maxLevels: []c03Vec{c03V(4, 4)}, minLevels: []c03Vec{c03V(1, 1)}},
+	},
+	pods: []c03PodDef{
+		{name: "a1", quota: 0, req: c03V(3, 1)},
+		{name: "a2", quota: 0, req: c03V(2, 1)},
+		{name: "b1", quota: 1, req: c03V(1, 1)},
+	},
+	syncLeaves: []int{0, 1},
+	flipLend:   []int{0, 1},
+	node1:      c03V(8, 8),
+	node2:      c03V(4, 4),
+}
+
 // ---------------------------------------------------------------------------------------------------------
 // alphabet
 
@@ -222,6 +245,7 @@ const (
 	c03OpNodeAdd
 	c03OpNodeDel
 	c03OpSync
+	c03OpFlipLend
 )
 
 type c03Op struct {
@@ -271,6 +295,9 @@ func c03BuildOps(cfg *c03Cfg) {
 		}
 	}
 	cfg.ops = append(cfg.ops, c03Op{c03OpNodeAdd, 0, "addNode(n2)"}, c03Op{c03OpNodeDel, 0, "removeNode(n2)"})
+	for _, q := range u.flipLend {
+		cfg.ops = append(cfg.ops, c03Op{c03OpFlipLend, q, "flipAllowLent(" + u.quotas[q].name + ")"})
+	}
 	if cfg.withSync {
 		// the ElasticQuota controller's runtime worker calls RefreshRuntime on every leaf quota, in lister order
 		for _, q := range u.syncLeaves {
@@ -302,6 +329,7 @@ type c03Sys struct {
 	maxLvl  []int
 	minLvl  []int
 	lowered []bool // max of the quota was lowered at least once on this path
+	flipped []bool // allow-lent-resource currently differs from the universe's definition
 	hasN2   bool
 
 	hist []uint8
@@ -389,7 +417,7 @@ func (s *c03Sys) build() {
 		s.podObjs[pi] = c03MakePod(u, u.pods[pi])
 	}
 	nq := len(u.quotas)
-	s.maxLvl, s.minLvl, s.lowered = make([]int, nq), make([]int, nq), make([]bool, nq)
+	s.maxLvl, s.minLvl, s.lowered, s.flipped = make([]int, nq), make([]int, nq), make([]bool, nq), make([]bool, nq)
 	s.quotaObjs = make([]*c03sched.ElasticQuota, nq)
 	// initial environment: node n1 exists, the quotas are delivered parents first
 	s.pl.OnNodeAdd(c03MakeNode("n1", u.node1))
@@ -429,6 +457,13 @@ func (s *c03Sys) refUsed(q int, onlyNonPreemptible bool) c03Vec {
 func (s *c03Sys) updateQuota(q int) {
 	old := s.quotaObjs[q]
 	nu := c03MakeQuota(s.cfg.u, q, s.max(q), s.min(q))
+	if s.flipped[q] {
+		if s.cfg.u.quotas[q].lend {
+			nu.Labels[extension.LabelAllowLentResource] = "false"
+		} else {
+			delete(nu.Labels, extension.LabelAllowLentResource)
+		}
+	}
 	s.quotaObjs[q] = nu
 	s.pl.OnQuotaUpdate(old, nu)
 }
@@ -511,6 +546,9 @@ func (s *c03Sys) applyReal(op int, check bool) (bool, []mc.Violation) {
 		s.hasN2 = false
 	case c03OpSync:
 		s.mgr.RefreshRuntime(s.cfg.u.quotas[o.arg].name)
+	case c03OpFlipLend:
+		s.flipped[o.arg] = !s.flipped[o.arg]
+		s.updateQuota(o.arg)
 	}
 	s.hist = append(s.hist, uint8(op))
 	return true, viol
@@ -954,7 +992,7 @@ func (s *c03Sys) histNames() []string {
 //     boolean per quota by c03StaleFlags.
 //   - PodInfo.pod: the pod object of a name is immutable in this universe; presence + isAssigned + resource stay.
 //   - GroupQuotaManager.quotaTopoNodeMap: a second index to the same QuotaInfo pointers, read only by the reset
-//     paths (parent/meta change), which no event of this alphabet triggers.
+//     paths (parent/meta change), which rebuild it from quotaInfoMap first (universe reset triggers them).
 //   - hookPlugins: none configured.
 var c03Dumper = &mc.Dumper{SkipFields: map[string]bool{
 	"QuotaInfo.RuntimeVersion":                    true,
@@ -991,7 +1029,7 @@ func (s *c03Sys) Key() string {
 	s.cfg.memo.put(s.hist, s.ledger())
 	var sb strings.Builder
 	// harness side: everything the oracle's future verdicts depend on
-	fmt.Fprintf(&sb, "pods%v max%v min%v lowered%v n2:%v|", s.podSt, s.maxLvl, s.minLvl, s.lowered, s.hasN2)
+	fmt.Fprintf(&sb, "pods%v max%v min%v lowered%v flipped%v n2:%v|", s.podSt, s.maxLvl, s.minLvl, s.lowered, s.flipped, s.hasN2)
 	sb.WriteString(c03StaleFlags(s.mgr))
 	sb.WriteString("|")
 	sb.WriteString(c03Dumper.Dump(s.mgr))
@@ -1071,6 +1109,9 @@ func c03Plan(env *mc.Env) []*c03Cfg {
 		add(c03NewCfg("hetero", c03Hetero, true, cp, env.Thorough(), 3, d0, 1), d1+1)
 	}
 	for _, cp := range []bool{false, true} {
+		add(c03NewCfg("reset", c03Reset, true, cp, true, 3, d0+1, 1), d1+1)
+	}
+	for _, cp := range []bool{false, true} {
 		add(c03NewCfg("hist", c03Tree, false, cp, false, env.Pick(6, 7), d0, 5), d1)
 	}
 	if env.Thorough() {
@@ -1141,7 +1182,7 @@ func c03Assumptions(cfg *c03Cfg) []string {
 	return []string{
 		"quota universe " + cfg.u.name + ": " + cfg.u.desc + "; every quota declares exactly cpu and memory in max and min (the webhook forces parent and children to declare the same max keys); every (max,min) level reachable by the alphabet satisfies the webhook rules",
 		"pods always carry the quota-name label; a pod is created (informer add, pending) before it is attempted, attempted only while pending, unreserved only while reserved (framework order); PreFilter and Reserve of one scheduling cycle are not separated by other events; a deleted pod name may be created again (new incarnation)",
-		"plugin arguments are the package defaults (min-quota scaling on, no hook plugins) except the two switches; bind / pod update events, quota deletion and re-parenting and multi quota trees are not part of the alphabet",
+		"plugin arguments are the package defaults (min-quota scaling on, no hook plugins) except the two switches; bind / pod update events, quota deletion and re-parenting and multi quota trees are not part of the alphabet; a quota tree reset only in the parts of universe reset (allow-lent-resource toggled)",
 		"with runtime quota on, 'the current limit' is the value RefreshRuntime publishes on a shadow replay of the same history (its numeric correctness is property C02)",
 		"counters are incremented once per judged execution (BFS repeats and violation confirmations re-execute and count again)",
 	}
